@@ -17,6 +17,30 @@
 #include <common/vjson.hpp>
 
 #include <fcppt/extract_from_string.hpp>
+#include <fcppt/char_literal.hpp>
+#include <fcppt/make_ref.hpp>
+#include <fcppt/make_strong_typedef.hpp>
+#include <fcppt/string_literal.hpp>
+#include <fcppt/strong_typedef.hpp>
+#include <fcppt/strong_typedef_input.hpp>
+#include <fcppt/strong_typedef_output.hpp>
+#include <fcppt/text.hpp>
+#include <fcppt/endianness/convert.hpp>
+#include <fcppt/enum/names.hpp>
+#include <fcppt/io/basic_scoped_rdbuf_decl.hpp>
+#include <fcppt/io/basic_scoped_rdbuf_impl.hpp>
+#include <fcppt/io/expect.hpp>
+#include <fcppt/io/extract.hpp>
+#include <fcppt/io/get.hpp>
+#include <fcppt/io/narrow_string.hpp>
+#include <fcppt/io/peek.hpp>
+#include <fcppt/io/stream_to_string.hpp>
+#include <fcppt/io/widen_string.hpp>
+#include <fcppt/math/box/object.hpp>
+#include <fcppt/math/box/output.hpp>
+#include <fcppt/math/matrix/output.hpp>
+#include <fcppt/math/matrix/row.hpp>
+#include <fcppt/math/matrix/static.hpp>
 #include <fcppt/output_to_string_locale.hpp>
 #include <fcppt/output_to_std_wstring_locale.hpp>
 #include <fcppt/output_to_std_string_locale.hpp>
@@ -62,6 +86,7 @@
 #include <functional>
 #include <istream>
 #include <locale>
+#include <memory>
 #include <ostream>
 #include <sstream>
 #include <string>
@@ -860,9 +885,383 @@ std::vector<ull> all_values(unsigned const bits)
   return v;
 }
 
+// ============================================================================== extension round
+// Everything below is outside the statement of C15 and is OBSERVED ONLY by the judge.
+
+// ---- fcppt::io character helpers on an input stream.  op codes: 0 get, 1 peek, 2 extract<Ch>,
+//      3 expect(arg), 4 stream_to_string
+char const *const io_op_names[] = {"get", "peek", "extract", "expect", "to_string"};
+
+template <typename Ch>
+void drive_iostream(std::vector<int> const &text, std::vector<std::pair<int, int>> const &ops)
+{
+  std::basic_string<Ch> t;
+  for (int c : text) t += static_cast<Ch>(c);
+  std::string oj = "[";
+  for (std::size_t i = 0; i < ops.size(); ++i)
+  {
+    oj += std::string(i ? "," : "") + "[\"" + io_op_names[ops[i].first] + "\"";
+    if (ops[i].first == 3) oj += "," + std::to_string(ops[i].second);
+    oj += "]";
+  }
+  vj::J pre;
+  pre.kv("f", "iostream").kv("ch", sizeof(Ch) == 1 ? "c" : "w").kv("text", text).raw("ops", oj + "]");
+  emit(pre, [&](vj::J &r) {
+    std::basic_istringstream<Ch> in(t);
+    std::string obs = "[";
+    bool first = true;
+    for (auto const &op : ops)
+    {
+      std::string o = "[]";
+      auto const ch_json = [](fcppt::optional::object<Ch> const &x) {
+        return x.has_value() ? "[" + std::to_string(static_cast<long long>(static_cast<std::make_unsigned_t<Ch>>(x.get_unsafe()))) + "]"
+                             : std::string("[]");
+      };
+      switch (op.first)
+      {
+      case 0: o = ch_json(fcppt::io::get(in)); break;
+      case 1: o = ch_json(fcppt::io::peek(in)); break;
+      case 2: o = ch_json(fcppt::io::extract<Ch>(in)); break;
+      case 3:
+        fcppt::io::expect(in, static_cast<Ch>(op.second));
+        o = in.fail() ? "[1]" : "[0]";
+        break;
+      default:
+      {
+        auto const res = fcppt::io::stream_to_string(in);
+        o = res.has_value() ? "[" + vj::cps(res.get_unsafe()) + "]" : std::string("[]");
+        break;
+      }
+      }
+      obs += (first ? "" : ",") + o;
+      first = false;
+    }
+    r.raw("obs", obs + "]");
+  });
+}
+
+// ---- io::scoped_rdbuf: nested scopes on one ostream.  ops: (0,b) open buffer b, (1,_) close, (2,c) write c
+template <typename Ch>
+void drive_rdbuf(int const nb, std::vector<std::pair<int, int>> const &ops)
+{
+  std::string oj = "[";
+  for (std::size_t i = 0; i < ops.size(); ++i)
+  {
+    oj += i ? "," : "";
+    if (ops[i].first == 0) oj += "[\"open\"," + std::to_string(ops[i].second) + "]";
+    else if (ops[i].first == 1) oj += "[\"close\"]";
+    else oj += "[\"write\"," + std::to_string(ops[i].second) + "]";
+  }
+  vj::J pre;
+  pre.kv("f", "rdbuf").kv("ch", sizeof(Ch) == 1 ? "c" : "w").kv("nb", nb).raw("ops", oj + "]");
+  emit(pre, [&](vj::J &r) {
+    std::vector<std::unique_ptr<std::basic_stringbuf<Ch>>> bufs;
+    for (int i = 0; i <= nb; ++i) bufs.push_back(std::make_unique<std::basic_stringbuf<Ch>>());
+    std::basic_ostream<Ch> os(bufs[0].get());
+    using scope = fcppt::io::basic_scoped_rdbuf<Ch, std::char_traits<Ch>>;
+    std::vector<std::unique_ptr<scope>> scopes;
+    std::vector<int> cur;
+    for (auto const &op : ops)
+    {
+      if (op.first == 0)
+        scopes.push_back(std::make_unique<scope>(
+            fcppt::make_ref(static_cast<std::basic_ios<Ch> &>(os)),
+            fcppt::make_ref(static_cast<std::basic_streambuf<Ch> &>(*bufs[static_cast<std::size_t>(op.second)]))));
+      else if (op.first == 1) scopes.pop_back();
+      else os.put(static_cast<Ch>(op.second));
+      int which = -1;
+      for (int i = 0; i <= nb; ++i)
+        if (os.rdbuf() == bufs[static_cast<std::size_t>(i)].get()) which = i;
+      cur.push_back(which);
+    }
+    r.kv("cur", cur);
+    std::string bj = "[";
+    for (int i = 0; i <= nb; ++i) bj += (i ? "," : "") + vj::cps(bufs[static_cast<std::size_t>(i)]->str());
+    r.raw("bufs", bj + "]");
+  });
+}
+
+// ---- endianness::convert
+template <typename T>
+void drive_convert(ull const pattern)
+{
+  T const v = value_of_pattern<T>(pattern);
+  vj::J pre;
+  pre.kv("f", "convert").kv("T", tname<T>::get()).kv("n", static_cast<int>(sizeof(T))).kv("d", digits_of(v));
+  pre.kv("native", std::endian::native == std::endian::little ? "little" : "big");
+  emit(pre, [&](vj::J &r) {
+    r.kv("cb", digits_of(fcppt::endianness::convert(v, std::endian::big)));
+    r.kv("cl", digits_of(fcppt::endianness::convert(v, std::endian::little)));
+  });
+}
+
+// ---- io::narrow_string / io::widen_string (classic locale)
+void drive_narrow_string(std::vector<long long> const &w)
+{
+  std::wstring ws;
+  for (long long c : w) ws += static_cast<wchar_t>(c);
+  vj::J pre;
+  pre.kv("f", "nstring").kv("k", "narrow").kv("s", w);
+  emit(pre, [&](vj::J &r) {
+    std::wistringstream dummy;
+    auto const res = fcppt::io::narrow_string(dummy, std::wstring_view{ws});
+    r.raw("r", res.has_value() ? "[" + vj::cps(res.get_unsafe()) + "]" : std::string("[]"));
+  });
+}
+
+void drive_widen_string(std::string const &str)
+{
+  vj::J pre;
+  pre.kv("f", "nstring").kv("k", "widen").raw("s", vj::cps(str));
+  emit(pre, [&](vj::J &r) {
+    std::ostringstream oc;
+    oc << fcppt::io::widen_string(str);
+    std::wostringstream ow;
+    ow << fcppt::io::widen_string(str);
+    r.raw("c", vj::cps(oc.str())).raw("w", vj::cps(ow.str()));
+    auto const back = fcppt::io::narrow_string(ow, std::wstring_view{ow.str()});
+    r.raw("back", back.has_value() ? "[" + vj::cps(back.get_unsafe()) + "]" : std::string("[]"));
+  });
+}
+
+// ---- strong_typedef << / >>
+FCPPT_MAKE_STRONG_TYPEDEF(int, st_int);
+FCPPT_MAKE_STRONG_TYPEDEF(long, st_long);
+FCPPT_MAKE_STRONG_TYPEDEF(unsigned short, st_ushort);
+
+template <typename S, typename Ch>
+void drive_stypedef(char const *name, typename S::value_type const v)
+{
+  using T = typename S::value_type;
+  vj::J pre;
+  pre.kv("f", "stypedef").kv("T", name).kv("bits", static_cast<int>(sizeof(T) * 8)).kv("sg", std::is_signed_v<T> ? 1 : 0);
+  pre.kv("ch", sizeof(Ch) == 1 ? "c" : "w").raw("x", num_json(num_of(v)));
+  emit(pre, [&](vj::J &r) {
+    std::basic_ostringstream<Ch> out;
+    out << S(v);
+    r.raw("text", vj::cps(out.str()));
+    std::basic_istringstream<Ch> in(out.str());
+    S back(T{});
+    bool const ok = static_cast<bool>(in >> back);
+    r.kv("ok", ok).raw("y", num_json(num_of(back.get())));
+  });
+}
+
+// ---- matrix / box output
+template <typename Ch>
+void drive_matrix(int const a, int const b, int const c, int const d, int const e, int const f)
+{
+  vj::J pre;
+  pre.kv("f", "matrix").kv("ch", sizeof(Ch) == 1 ? "c" : "w");
+  auto const row = [](int x, int y, int z) { return "[" + num_json(num_of(x)) + "," + num_json(num_of(y)) + "," + num_json(num_of(z)) + "]"; };
+  pre.raw("rows", "[" + row(a, b, c) + "," + row(d, e, f) + "]");
+  emit(pre, [&](vj::J &r) {
+    fcppt::math::matrix::static_<int, 2, 3> const m(fcppt::math::matrix::row(a, b, c), fcppt::math::matrix::row(d, e, f));
+    std::basic_ostringstream<Ch> out;
+    out << m;
+    r.raw("text", vj::cps(out.str()));
+  });
+}
+
+template <typename Ch>
+void drive_box(int const x, int const y, int const w, int const h)
+{
+  vj::J pre;
+  pre.kv("f", "box").kv("ch", sizeof(Ch) == 1 ? "c" : "w");
+  pre.raw("pos", "[" + num_json(num_of(x)) + "," + num_json(num_of(y)) + "]").raw("size", "[" + num_json(num_of(w)) + "," + num_json(num_of(h)) + "]");
+  emit(pre, [&](vj::J &r) {
+    using box = fcppt::math::box::object<int, 2>;
+    box const bx(typename box::vector(x, y), typename box::dim(w, h));
+    std::basic_ostringstream<Ch> out;
+    out << bx;
+    r.raw("text", vj::cps(out.str()));
+  });
+}
+
+// ---- enum name tables
+template <typename E>
+void drive_enum_names(char const *name)
+{
+  vj::J pre;
+  pre.kv("f", "enum_names").kv("E", name);
+  emit(pre, [&](vj::J &r) {
+    auto const names = fcppt::enum_::names<E>();
+    std::vector<std::string> v;
+    for (E const e : fcppt::enum_::make_range<E>()) v.push_back(ascii_of(std::string{names[e]}));
+    r.raw("names", vj::str_arr(v));
+  });
+}
+
+// ---- literals
+#define C15_LITERAL(LIT, CH) \
+  { \
+    vj::J pre; \
+    pre.kv("f", "literal").kv("src", #LIT); \
+    emit(pre, [&](vj::J &r) { \
+      r.raw("c", vj::cps(std::string{FCPPT_STRING_LITERAL(char, LIT)})); \
+      r.raw("w", vj::cps(std::wstring{FCPPT_STRING_LITERAL(wchar_t, LIT)})); \
+      r.raw("t", vj::cps(fcppt::string{FCPPT_TEXT(LIT)})); \
+      r.kv("cc", static_cast<int>(static_cast<unsigned char>(FCPPT_CHAR_LITERAL(char, CH)))); \
+      r.kv("wc", static_cast<int>(FCPPT_CHAR_LITERAL(wchar_t, CH))); \
+    }); \
+  }
+
+void extension_records(vj::Rng &r, bool const thorough)
+{
+  // io helpers: every text of length <= 3 over {a, b, blank} x every sequence of <= 3 operations (char);
+  // random longer ones (char and wchar_t)
+  {
+    int const alphabet[] = {97, 98, 32};
+    std::vector<std::pair<int, int>> const all_ops = {{0, 0}, {1, 0}, {2, 0}, {3, 97}, {3, 98}, {4, 0}};
+    for (int len = 0; len <= 3; ++len)
+    {
+      int total = 1;
+      for (int i = 0; i < len; ++i) total *= 3;
+      for (int idx = 0; idx < total; ++idx)
+      {
+        std::vector<int> text;
+        int q = idx;
+        for (int i = 0; i < len; ++i)
+        {
+          text.push_back(alphabet[q % 3]);
+          q /= 3;
+        }
+        for (int ol = 1; ol <= 3; ++ol)
+        {
+          int ot = 1;
+          for (int i = 0; i < ol; ++i) ot *= 6;
+          for (int oi = 0; oi < ot; ++oi)
+          {
+            std::vector<std::pair<int, int>> ops;
+            int oq = oi;
+            for (int i = 0; i < ol; ++i)
+            {
+              ops.push_back(all_ops[static_cast<std::size_t>(oq % 6)]);
+              oq /= 6;
+            }
+            drive_iostream<char>(text, ops);
+          }
+        }
+      }
+    }
+    int const alphabet2[] = {97, 98, 99, 32, 9, 10, 48};
+    std::size_t const n = thorough ? 20000 : 2000;
+    for (std::size_t j = 0; j < n; ++j)
+    {
+      std::vector<int> text;
+      std::size_t const len = r.below(9);
+      for (std::size_t i = 0; i < len; ++i) text.push_back(alphabet2[r.below(7)]);
+      std::vector<std::pair<int, int>> ops;
+      std::size_t const ol = 1 + r.below(8);
+      for (std::size_t i = 0; i < ol; ++i)
+      {
+        int const code = static_cast<int>(r.below(10));
+        ops.push_back(code < 3 ? std::make_pair(0, 0) : code < 5 ? std::make_pair(1, 0) : code < 7 ? std::make_pair(2, 0)
+                      : code < 9 ? std::make_pair(3, alphabet2[r.below(3)]) : std::make_pair(4, 0));
+      }
+      if (j % 2 == 0) drive_iostream<char>(text, ops);
+      else drive_iostream<wchar_t>(text, ops);
+    }
+  }
+  // scoped_rdbuf: random well-nested sequences; every scope is closed at the end
+  {
+    std::size_t const n = thorough ? 10000 : 1500;
+    for (std::size_t j = 0; j < n; ++j)
+    {
+      int const nb = 1 + static_cast<int>(r.below(3));
+      std::vector<std::pair<int, int>> ops;
+      int depth = 0;
+      std::size_t const len = r.below(10);
+      for (std::size_t i = 0; i < len; ++i)
+      {
+        std::uint64_t const c = r.below(10);
+        if (c < 3 && depth < 4)
+        {
+          ops.emplace_back(0, 1 + static_cast<int>(r.below(static_cast<std::uint64_t>(nb))));
+          ++depth;
+        }
+        else if (c < 5 && depth > 0)
+        {
+          ops.emplace_back(1, 0);
+          --depth;
+        }
+        else
+          ops.emplace_back(2, 97 + static_cast<int>(r.below(26)));
+      }
+      while (depth-- > 0)
+      {
+        ops.emplace_back(1, 0);
+        ops.emplace_back(2, 122);
+      }
+      if (j % 2 == 0) drive_rdbuf<char>(nb, ops);
+      else drive_rdbuf<wchar_t>(nb, ops);
+    }
+  }
+  // endianness::convert for the integer types
+  {
+    for (ull p : all_values(8)) drive_convert<unsigned char>(p);
+    for (ull p = 0; p < 65536; p += (thorough ? 1 : 7)) drive_convert<unsigned short>(p);
+    for (ull p = 0; p < 65536; p += (thorough ? 1 : 11)) drive_convert<short>(p);
+    for (ull p : lattice(32, r, 512)) { drive_convert<int>(p); drive_convert<unsigned>(p); drive_convert<wchar_t>(p); }
+    for (ull p : lattice(64, r, 512)) { drive_convert<long>(p); drive_convert<unsigned long long>(p); }
+    drive_convert<bool>(0);
+    drive_convert<bool>(1);
+  }
+  // narrow_string / widen_string
+  {
+    std::size_t const n = thorough ? 5000 : 800;
+    for (std::size_t j = 0; j < n; ++j)
+    {
+      std::vector<long long> w;
+      std::string s;
+      std::size_t const len = r.below(12);
+      for (std::size_t i = 0; i < len; ++i)
+      {
+        long long const c = r.range(1, 127);
+        w.push_back((j % 3 == 1 && r.below(5) == 0) ? (r.coin() ? 0 : r.range(256, 0x10FFFF)) : c);
+        s += static_cast<char>(c);
+      }
+      drive_narrow_string(w);
+      drive_widen_string(s);
+    }
+  }
+  // strong typedefs, matrices, boxes
+  {
+    for (ull p : lattice(32, r, 200))
+    {
+      drive_stypedef<st_int, char>("st_int", static_cast<int>(static_cast<std::uint32_t>(p)));
+      drive_stypedef<st_int, wchar_t>("st_int", static_cast<int>(static_cast<std::uint32_t>(p)));
+    }
+    for (ull p : lattice(64, r, 200)) drive_stypedef<st_long, char>("st_long", static_cast<long>(p));
+    for (ull p = 0; p < 65536; p += 97) drive_stypedef<st_ushort, char>("st_ushort", static_cast<unsigned short>(p));
+    for (int i = 0; i < 300; ++i)
+    {
+      auto const v = [&] { return static_cast<int>(r.range(-1000, 1000)); };
+      int const a = v(), b = v(), c = v(), d = v(), e = v(), f = v();
+      if (i % 2 == 0) drive_matrix<char>(a, b, c, d, e, f);
+      else drive_matrix<wchar_t>(a, b, c, d, e, f);
+      if (i % 2 == 0) drive_box<char>(a, b, c < 0 ? -c : c, d < 0 ? -d : d);
+      else drive_box<wchar_t>(a, b, c < 0 ? -c : c, d < 0 ? -d : d);
+    }
+  }
+  drive_enum_names<E1>("E1");
+  drive_enum_names<E3>("E3");
+  drive_enum_names<E9>("E9");
+  drive_enum_names<E5u8>("E5u8");
+  C15_LITERAL("", 'a')
+  C15_LITERAL("test", 't')
+  C15_LITERAL("a b\tc\n", '\n')
+  C15_LITERAL("quote\" backslash\\ percent% {}", '\\')
+  C15_LITERAL("0123456789 the quick brown fox jumps over the lazy dog", '~')
+}
+
 void record(std::uint64_t const seed, bool const thorough)
 {
   vj::Rng r(seed);
+  {
+    vj::Rng er(seed * 131ULL + 5ULL);
+    extension_records(er, thorough);
+  }
   std::size_t const nrand = thorough ? 40000 : 4096;
   // ---- binary
   io_family<signed char>(all_values(8), 1, r);
